@@ -1105,11 +1105,28 @@ class NumpyModel:
             def f(I_, *a, **k2):
                 rng.attrs["calls"] += 1
                 I_.emit("rng-draw", (name, keyof(seed), rng.attrs["calls"], keyof(a)))
-                return SymArr("rng." + name, (keyof(seed), rng.attrs["calls"], a))
+                return SymArr("rng." + name, (keyof(seed), rng.attrs["calls"], a, tuple(sorted((k_, keyof(v_)) for k_, v_ in k2.items()))))
             return Native("rng." + name, f)
         for nm in ("random", "integers", "uniform", "normal", "choice", "permutation", "shuffle"):
             rng.native_methods[nm] = draw(nm)
         return rng
+
+    def np_isclose(self, a, b, rtol=1e-05, atol=1e-08, **kw):
+        rt, at = cell(rtol), cell(atol)
+        return vec2(lambda x, y: self.I.compare1(_OPS["LtE"], alg.Abs(x - y), at + rt * alg.Abs(y)), a, b)
+
+    def np_allclose(self, a, b, rtol=1e-05, atol=1e-08, **kw):
+        r = self.np_isclose(a, b, rtol, atol)
+        if isinstance(r, np.ndarray):
+            ts = list(r.flat)
+        else:
+            ts = [r]
+        if all(isinstance(t, (bool, np.bool_)) for t in ts):
+            return all(bool(t) for t in ts)
+        if any(t is False for t in ts):
+            return False
+        gs = [t for t in ts if isinstance(t, Guard)]
+        return Guard("and", *gs) if len(gs) > 1 else gs[0]
 
     def np_finfo(self, dtype=None):
         # float64 machine parameters as exact constants
